@@ -1,8 +1,712 @@
-//! C03 — see /verif/DESIGN.md §3.
-use vf_core::{Args, Ctx};
+//! C03 — scaled and hinted outlines match FreeType for static fonts.
+//!
+//! Online reference-model monitor. The reference is the FreeType build that
+//! the repository's own comparison tool (`fauntlet`) links (bundled
+//! freetype-sys = FreeType 2.12.1); the adapter and the cosmetic path
+//! normalisation (`RegularizingPen`) are fauntlet's, used as a library.
+//!
+//! For each (font, glyph, ppem, mode) both engines draw through a
+//! `RegularizingPen` into a `Vec<PathElement>`:
+//!   * both produced an outline and the paths differ            -> violation
+//!   * both produced an outline, skrifa reports an adjusted advance
+//!     (glyf, auto-hinter) and it differs from FT's horiAdvance -> violation
+//!   * exactly one side failed                                  -> `error_mismatch`
+//!     (inconclusive bucket; C02's business, never a match)
+//!   * both failed                                              -> `both_error`
+//!
+//! `fauntlet::compare_glyphs` is deliberately not used: it unwraps skrifa
+//! errors (charstring_path_ops.ttf) and never checks the advance of static
+//! fonts.
+//!
+//! IMPORTANT: this crate lives in its own workspace so that skrifa is built
+//! WITHOUT `autohint_shaping` (like fauntlet); see /verif/DESIGN.md C03.
 
-pub const REPLAY: Option<fn(&mut Ctx, &Args, &serde_json::Value, Option<&[u8]>)> = None;
+use fauntlet::{Font, Hinting, HintingTarget, InstanceOptions, RegularizingPen};
+use serde_json::{json, Value};
+use skrifa::{outline::pen::PathElement, GlyphId};
+use std::collections::BTreeMap;
+use std::path::Path;
+use vf_core::{fnv64, Args, Ctx, CorpusFont, Digest, Rng};
 
-pub fn run(ctx: &mut Ctx, _args: &Args) {
-    ctx.rule = "stub".into();
+pub const REPLAY: Option<fn(&mut Ctx, &Args, &Value, Option<&[u8]>)> = Some(replay);
+
+const TARGETS: [HintingTarget; 5] = [
+    HintingTarget::Mono,
+    HintingTarget::Normal,
+    HintingTarget::Light,
+    HintingTarget::Lcd,
+    HintingTarget::VerticalLcd,
+];
+
+const QUICK_SIZES: [u32; 12] = [0, 7, 8, 9, 11, 12, 13, 16, 17, 24, 48, 113];
+
+/// Quick tier: glyph budget per (font, ppem, mode) for large fonts; a
+/// seed-dependent residue class of stride ceil(n / budget) is compared.
+const QUICK_GLYPHS_PER_CONFIG: usize = 100000;
+
+fn target_name(t: HintingTarget) -> &'static str {
+    match t {
+        HintingTarget::Mono => "mono",
+        HintingTarget::Normal => "normal",
+        HintingTarget::Light => "light",
+        HintingTarget::Lcd => "lcd",
+        HintingTarget::VerticalLcd => "vlcd",
+    }
+}
+
+fn target_from(s: &str) -> Option<HintingTarget> {
+    TARGETS.iter().copied().find(|t| target_name(*t) == s)
+}
+
+/// A comparison mode (`ppem == 0` has the single mode `Unscaled`).
+#[derive(Copy, Clone, PartialEq, Eq, Debug)]
+enum Mode {
+    Unscaled,
+    Unhinted,
+    Hinted(Hinting),
+}
+
+impl Mode {
+    fn engine(self) -> &'static str {
+        match self {
+            Mode::Unscaled | Mode::Unhinted => "none",
+            Mode::Hinted(Hinting::Interpreter(_)) => "interpreter",
+            Mode::Hinted(Hinting::Auto(_)) => "auto",
+        }
+    }
+    fn target(self) -> &'static str {
+        match self {
+            Mode::Unscaled => "unscaled",
+            Mode::Unhinted => "unhinted",
+            Mode::Hinted(Hinting::Interpreter(t)) | Mode::Hinted(Hinting::Auto(t)) => {
+                target_name(t)
+            }
+        }
+    }
+    fn name(self) -> String {
+        format!("{}/{}", self.engine(), self.target())
+    }
+    fn hinting(self) -> Option<Hinting> {
+        match self {
+            Mode::Hinted(h) => Some(h),
+            _ => None,
+        }
+    }
+    fn parse(engine: &str, target: &str) -> Option<Mode> {
+        match (engine, target) {
+            ("none", "unscaled") => Some(Mode::Unscaled),
+            ("none", "unhinted") => Some(Mode::Unhinted),
+            ("interpreter", t) => Some(Mode::Hinted(Hinting::Interpreter(target_from(t)?))),
+            ("auto", t) => Some(Mode::Hinted(Hinting::Auto(target_from(t)?))),
+            _ => None,
+        }
+    }
+}
+
+fn scaled_modes() -> Vec<Mode> {
+    let mut v = vec![Mode::Unhinted];
+    v.extend(TARGETS.iter().map(|t| Mode::Hinted(Hinting::Interpreter(*t))));
+    v.extend(TARGETS.iter().map(|t| Mode::Hinted(Hinting::Auto(*t))));
+    v
+}
+
+fn sizes(ctx: &Ctx) -> Vec<u32> {
+    if ctx.tier.is_thorough() {
+        let mut v = vec![0u32];
+        v.extend(6..=200u32);
+        v.extend([256, 512, 1000]);
+        v
+    } else {
+        QUICK_SIZES.to_vec()
+    }
+}
+
+/// Static properties of one face of a corpus file, gathered without FreeType.
+struct FaceInfo {
+    index: usize,
+    glyph_count: u32,
+    flavour: &'static str,
+}
+
+/// Faces of a corpus file that are in the property's domain: static (no
+/// `fvar` table at all) and with a glyf or CFF/CFF2 outline table.
+fn static_outline_faces(ctx: &mut Ctx, font: &CorpusFont) -> Vec<FaceInfo> {
+    use read_fonts::{types::Tag, FileRef, FontRef, TableProvider};
+    let mut out = vec![];
+    let data: &[u8] = &font.data;
+    let n = match FileRef::new(data) {
+        Ok(FileRef::Font(_)) => 1,
+        Ok(FileRef::Collection(c)) => c.len() as usize,
+        Err(_) => {
+            ctx.count("files_skipped:unparsable", 1);
+            return out;
+        }
+    };
+    for index in 0..n {
+        let Ok(f) = FontRef::from_index(data, index as u32) else {
+            ctx.count("faces_skipped:unparsable", 1);
+            continue;
+        };
+        if f.table_data(Tag::new(b"fvar")).is_some() {
+            ctx.count("faces_skipped:variable", 1);
+            continue;
+        }
+        let flavour = if f.table_data(Tag::new(b"glyf")).is_some()
+            && f.table_data(Tag::new(b"loca")).is_some()
+        {
+            "glyf"
+        } else if f.table_data(Tag::new(b"CFF ")).is_some() {
+            "cff"
+        } else if f.table_data(Tag::new(b"CFF2")).is_some() {
+            "cff2"
+        } else {
+            ctx.count("faces_skipped:no_outlines", 1);
+            continue;
+        };
+        let Ok(maxp) = f.maxp() else {
+            ctx.count("faces_skipped:no_maxp", 1);
+            continue;
+        };
+        out.push(FaceInfo {
+            index,
+            glyph_count: maxp.num_glyphs() as u32,
+            flavour,
+        });
+    }
+    out
+}
+
+fn font_key(font: &CorpusFont, index: usize) -> String {
+    if index == 0 {
+        font.id()
+    } else {
+        format!("{}@{}#{:016x}", font.name, index, fnv64(&font.data))
+    }
+}
+
+fn path_to_strings(p: &[PathElement], max: usize) -> Vec<String> {
+    let mut v: Vec<String> = p.iter().take(max).map(|e| format!("{e:?}")).collect();
+    if p.len() > max {
+        v.push(format!("... {} more", p.len() - max));
+    }
+    v
+}
+
+fn first_diff(a: &[PathElement], b: &[PathElement]) -> Value {
+    let i = a
+        .iter()
+        .zip(b.iter())
+        .position(|(x, y)| x != y)
+        .unwrap_or(a.len().min(b.len()));
+    json!({
+        "index": i,
+        "freetype": a.get(i).map(|e| format!("{e:?}")),
+        "skrifa": b.get(i).map(|e| format!("{e:?}")),
+        "freetype_len": a.len(),
+        "skrifa_len": b.len(),
+    })
+}
+
+/// Differing comparisons per signature seen by this shard.
+#[derive(Default)]
+struct Stats {
+    mismatches: BTreeMap<String, u64>,
+}
+
+/// Outcome of one (font, ppem, mode) configuration.
+enum ConfigOutcome {
+    Ran,
+    Skipped(&'static str),
+}
+
+#[allow(clippy::too_many_arguments)]
+fn run_config(
+    ctx: &mut Ctx,
+    stats: &mut Stats,
+    ft_font: &mut Font,
+    font: &CorpusFont,
+    face: &FaceInfo,
+    ppem: u32,
+    mode: Mode,
+    gids: &mut dyn Iterator<Item = u32>,
+) -> ConfigOutcome {
+    let options = InstanceOptions::new(face.index, ppem, &[], mode.hinting());
+    // Instance creation runs fpgm/prep (skrifa) and FT_New_Memory_Face +
+    // FT_Set_Pixel_Sizes; a panic in there is not this property's subject.
+    let inst = vf_core::guard(|| ft_font.instantiate(&options));
+    let (ft, sk) = match inst {
+        Ok(Some(pair)) => pair,
+        Ok(None) => {
+            // fauntlet does not say which side refused; ask skrifa directly.
+            return ConfigOutcome::Skipped(if skrifa_instantiates(&font.data, face.index, ppem, mode) {
+                "instantiate_failed:freetype_refuses_skrifa_accepts"
+            } else {
+                "instantiate_failed:skrifa_refuses"
+            });
+        }
+        Err(p) => {
+            ctx.inconclusive(format!(
+                "panic while instantiating {} ppem={} {}: {}:{} {}",
+                font.name,
+                ppem,
+                mode.name(),
+                p.file,
+                p.line,
+                p.msg
+            ));
+            return ConfigOutcome::Skipped("instantiate_panicked");
+        }
+    };
+    if !ft.is_scalable() {
+        return ConfigOutcome::Skipped("not_scalable");
+    }
+    if mode != Mode::Unscaled && (ft.is_tricky() || sk.is_tricky()) {
+        // fauntlet lets FreeType "do its own thing" for tricky fonts (load
+        // flags ignore the requested hinting) and is only meaningful there
+        // for its own hinting=None configuration.
+        if mode != Mode::Unhinted {
+            return ConfigOutcome::Skipped("tricky_font_hinting_mode");
+        }
+    }
+    let is_scaled = ppem != 0;
+    let fkey = font_key(font, face.index);
+    let fhash = fnv64(fkey.as_bytes());
+    let mode_name = mode.name();
+    let mode_hash = fnv64(mode_name.as_bytes());
+    let cmp_key = format!("cmp:{}", mode_name);
+    let mut d = Digest::new();
+    d.u64(fhash);
+    d.u64(mode_hash);
+    ctx.distinct("font_mode_pairs", d.finish());
+    d.u64(ppem as u64);
+    ctx.distinct("font_mode_ppem_configs", d.finish());
+
+    let cell = std::cell::RefCell::new((ft, sk, Vec::<PathElement>::new(), Vec::<PathElement>::new()));
+    let mut compared = 0u64;
+    let mut nontrivial = 0u64;
+    let mut empty_both = 0u64;
+    let mut both_error = 0u64;
+    let mut advance_checked = 0u64;
+
+    for gid in gids {
+        let glyph_id = GlyphId::new(gid);
+        let label = || format!("{} gid={} ppem={} {}", fkey, gid, ppem, mode_name);
+        // One case = one glyph drawn by both engines, under the panic,
+        // cpu-progress and wall-clock monitors.
+        let res = ctx.run_case(&label, None, &|| {
+            let mut g = cell.borrow_mut();
+            let (ft, sk, ft_path, sk_path) = &mut *g;
+            ft_path.clear();
+            sk_path.clear();
+            let ft_adv = ft.outline(glyph_id, &mut RegularizingPen::new(ft_path, is_scaled));
+            let sk_adv = sk
+                .outline(glyph_id, &mut RegularizingPen::new(sk_path, is_scaled))
+                .map_err(|e| format!("{e:?}"));
+            (ft_adv, sk_adv)
+        });
+        ctx.eval();
+        let (ft_adv, sk_adv) = match res {
+            Ok(x) => x,
+            Err(p) => {
+                // A panic while drawing is C02's (totality), not a FreeType
+                // disagreement; keep it visible but out of this verdict.
+                ctx.count("draw_panics", 1);
+                ctx.label("draw_panic_sites", &p.signature());
+                ctx.inconclusive(format!("panic while drawing {}: {} {}", label(), p.signature(), p.msg));
+                continue;
+            }
+        };
+        let g = cell.borrow();
+        let (ft_path, sk_path) = (&g.2, &g.3);
+        match (ft_adv, sk_adv) {
+            (None, Err(_)) => {
+                both_error += 1;
+                continue;
+            }
+            (Some(_), Err(e)) => {
+                ctx.count("error_mismatch", 1);
+                ctx.count("error_mismatch:skrifa_only_fails", 1);
+                ctx.distinct("error_mismatch_glyphs", {
+                    let mut d = Digest::new();
+                    d.u64(fhash);
+                    d.u64(gid as u64);
+                    d.finish()
+                });
+                ctx.label("error_mismatch_glyphs", &format!("{} gid={} skrifa:{} freetype:ok", fkey, gid, e));
+                ctx.sample_by_kind(
+                    &format!("error_mismatch:{}:{}", font.name, gid),
+                    json!({"font": fkey, "gid": gid, "ppem": ppem, "mode": mode_name, "skrifa_error": e, "freetype_path_len": ft_path.len()}),
+                );
+                continue;
+            }
+            (None, Ok(_)) => {
+                ctx.count("error_mismatch", 1);
+                ctx.count("error_mismatch:freetype_only_fails", 1);
+                ctx.distinct("error_mismatch_glyphs", {
+                    let mut d = Digest::new();
+                    d.u64(fhash);
+                    d.u64(gid as u64);
+                    d.finish()
+                });
+                ctx.label("error_mismatch_glyphs", &format!("{} gid={} skrifa:ok freetype:error", fkey, gid));
+                ctx.sample_by_kind(
+                    &format!("error_mismatch:{}:{}", font.name, gid),
+                    json!({"font": fkey, "gid": gid, "ppem": ppem, "mode": mode_name, "freetype_error": true, "skrifa_path_len": sk_path.len()}),
+                );
+                continue;
+            }
+            (Some(ft_adv), Ok(sk_adv)) => {
+                compared += 1;
+                let path_differs = ft_path != sk_path;
+                let mut adv_differs = false;
+                if let Some(a) = sk_adv {
+                    advance_checked += 1;
+                    adv_differs = a != ft_adv;
+                }
+                if !ft_path.is_empty() && !sk_path.is_empty() {
+                    nontrivial += 1;
+                    let mut d = Digest::new();
+                    d.u64(fhash);
+                    d.u64(gid as u64);
+                    d.u64(ppem as u64);
+                    d.u64(mode_hash);
+                    ctx.nontrivial(d.finish());
+                } else if ft_path.is_empty() && sk_path.is_empty() {
+                    empty_both += 1;
+                }
+                if path_differs || adv_differs {
+                    let sig = format!("ft-mismatch:{}:gid={}:engine={}", fkey, gid, mode.engine());
+                    *stats.mismatches.entry(sig.clone()).or_default() += 1;
+                    ctx.label("mismatching_glyph_engine", &sig);
+                    ctx.distinct("mismatching_cases", {
+                        let mut d = Digest::new();
+                        d.str(&sig);
+                        d.u64(ppem as u64);
+                        d.u64(mode_hash);
+                        d.finish()
+                    });
+                    ctx.count(&format!("mismatch:{}", mode.engine()), 1);
+                    if path_differs {
+                        ctx.count("mismatch_kind:path", 1);
+                    }
+                    if adv_differs {
+                        ctx.count("mismatch_kind:advance", 1);
+                    }
+                    let first_for_sig = stats.mismatches.get(&sig).copied() == Some(1);
+                    let diagnosis = if first_for_sig {
+                        diagnose(font, face, gid, ppem, mode, ft_path, sk_path)
+                    } else {
+                        Value::Null
+                    };
+                    let detail = json!({
+                        "diagnosis": diagnosis,
+                        "font": fkey,
+                        "font_path": font.path.to_string_lossy(),
+                        "index": face.index,
+                        "flavour": face.flavour,
+                        "gid": gid,
+                        "ppem": ppem,
+                        "engine": mode.engine(),
+                        "target": mode.target(),
+                        "path_differs": path_differs,
+                        "advance_differs": adv_differs,
+                        "freetype_advance": ft_adv,
+                        "skrifa_advance": sk_adv,
+                        "first_difference": first_diff(ft_path, sk_path),
+                        "freetype_path": path_to_strings(ft_path, 40),
+                        "skrifa_path": path_to_strings(sk_path, 40),
+                        "note": "first differing (ppem, target) seen by this shard for this (font, glyph, engine); events.differing_comparisons:<signature> has the total",
+                    });
+                    ctx.violation(&sig, detail, None);
+                } else if nontrivial == 1 && !ft_path.is_empty() {
+                    ctx.sample_by_kind(
+                        &format!("{}:{}", face.flavour, mode_name),
+                        json!({"font": fkey, "gid": gid, "ppem": ppem, "mode": mode_name, "advance": ft_adv, "skrifa_advance": sk_adv, "path_len": ft_path.len(), "path_head": path_to_strings(ft_path, 3)}),
+                    );
+                }
+            }
+        }
+    }
+    ctx.count(&cmp_key, compared);
+    ctx.count("comparisons", compared);
+    ctx.count(&format!("comparisons:{}", face.flavour), compared);
+    ctx.count("comparisons_nonempty_both", nontrivial);
+    ctx.count("comparisons_empty_both", empty_both);
+    ctx.count("both_error", both_error);
+    ctx.count("advance_comparisons", advance_checked);
+    ctx.count("configs_run", 1);
+    ConfigOutcome::Ran
+}
+
+pub fn run(ctx: &mut Ctx, args: &Args) {
+    ctx.rule = "a comparison where BOTH FreeType and skrifa produced a non-empty regularised outline; digest = (font file+content hash, face index, glyph id, ppem, engine/target)".into();
+    ctx.level = "differential".into();
+    ctx.assumptions = vec![
+        "reference = the FreeType that fauntlet links (freetype-sys 0.17 bundled FreeType 2.12.1), driven through fauntlet's own adapter and RegularizingPen".into(),
+        "skrifa built without `autohint_shaping` (default-features=false, features=[std]) exactly like fauntlet".into(),
+        "static fonts only (any face with an fvar table is skipped); tricky fonts are compared unscaled/unhinted only, as fauntlet lets FreeType ignore hinting flags for them".into(),
+        "advance compared when skrifa reports AdjustedMetrics.advance_width (glyf, auto-hinter) against FT glyph metrics horiAdvance".into(),
+    ];
+    if let Some(rp) = &args.replay {
+        let _ = rp; // handled by vf_core::main_with through REPLAY
+    }
+    let fonts = all_fonts();
+    let quick = !ctx.tier.is_thorough();
+    let sizes = sizes(ctx);
+    let modes = scaled_modes();
+    let mut stats = Stats::default();
+    let mut item = 0usize;
+
+    ctx.extra.insert("ppem_grid".into(), json!({"count": sizes.len(), "min_scaled": sizes.iter().filter(|s| **s != 0).min(), "max": sizes.iter().max(), "includes_unscaled": sizes.contains(&0)}));
+    ctx.extra.insert(
+        "freetype".into(),
+        json!(freetype_version().unwrap_or_else(|| "?".into())),
+    );
+
+    for font in &fonts {
+        // quick tier: test-data fonts + DejaVuSans; thorough: everything
+        let is_extra = font.path.starts_with(format!("{}/corpus", vf_core::VERIF_DIR));
+        if quick && is_extra && std::env::var("C03_EXP").is_err() && font.name != "DejaVuSans.ttf" {
+            continue;
+        }
+        let faces = static_outline_faces(ctx, font);
+        if faces.is_empty() {
+            continue;
+        }
+        // One FT library + mmap per corpus file per shard, opened lazily.
+        let mut ft_font: Option<Font> = None;
+        for face in &faces {
+            let fkey = font_key(font, face.index);
+            let n = face.glyph_count as usize;
+            if n == 0 {
+                continue;
+            }
+            let stride = if quick {
+                n.div_ceil(QUICK_GLYPHS_PER_CONFIG).max(1)
+            } else {
+                1
+            };
+            let mut face_seen = false;
+            for (si, &ppem) in sizes.iter().enumerate() {
+                let mode_list: &[Mode] = if ppem == 0 { &[Mode::Unscaled] } else { &modes };
+                for (mi, &mode) in mode_list.iter().enumerate() {
+                    let mine = ctx.mine(item);
+                    item += 1;
+                    if !mine {
+                        continue;
+                    }
+                    if ft_font.is_none() {
+                        ft_font = open_font(ctx, &font.path);
+                        if ft_font.is_none() {
+                            break;
+                        }
+                    }
+                    let Some(ff) = ft_font.as_mut() else { break };
+                    // seed-dependent residue class (quick, big fonts only)
+                    let offset = if stride > 1 {
+                        Rng::derive(ctx.seed, &fkey, (si * 16 + mi) as u64).usize(stride)
+                    } else {
+                        0
+                    };
+                    let mut gids = (0..n as u32).filter(|g| (*g as usize) % stride == offset);
+                    match run_config(ctx, &mut stats, ff, font, face, ppem, mode, &mut gids) {
+                        ConfigOutcome::Ran => {
+                            if !face_seen {
+                                face_seen = true;
+                                ctx.label("fonts", &format!("{} [{} glyphs, {}]", fkey, n, face.flavour));
+                                ctx.label("flavours", face.flavour);
+                            }
+                            ctx.label("ppem", &format!("{:04}", ppem));
+                            // glyph coverage is the same residue class for
+                            // every shard only when stride == 1; record ids.
+                            let fhash = fnv64(fkey.as_bytes());
+                            for g in (0..n as u32).filter(|g| (*g as usize) % stride == offset) {
+                                let mut d = Digest::new();
+                                d.u64(fhash);
+                                d.u64(g as u64);
+                                ctx.distinct("glyphs", d.finish());
+                            }
+                        }
+                        ConfigOutcome::Skipped(why) => {
+                            ctx.count(&format!("configs_skipped:{}", why), 1);
+                            ctx.label("configs_skipped", &format!("{}:{}", font.name, why));
+                        }
+                    }
+                }
+            }
+        }
+    }
+
+    for (sig, n) in stats.mismatches.iter().take(200) {
+        // per-signature totals (summed over shards by the merge)
+        ctx.count(&format!("differing_comparisons:{}", sig), *n);
+    }
+    ctx.exhaustive = Some(!quick);
+}
+
+/// Mirror of `fauntlet::SkrifaInstance::new`, used only to attribute an
+/// instantiation failure to one side.
+fn skrifa_instantiates(data: &[u8], index: usize, ppem: u32, mode: Mode) -> bool {
+    use skrifa::{
+        outline::HintingInstance,
+        prelude::Size,
+        raw::FontRef,
+        MetadataProvider,
+    };
+    let Ok(font) = FontRef::from_index(data, index as u32) else {
+        return false;
+    };
+    let outlines = font.outline_glyphs();
+    if ppem == 0 {
+        return true;
+    }
+    let size = Size::new(ppem as f32);
+    let no_coords: &[skrifa::raw::types::F2Dot14] = &[];
+    match mode.hinting() {
+        Some(h) => vf_core::guard(|| HintingInstance::new(&outlines, size, no_coords, h.skrifa_options()).is_ok())
+            .unwrap_or(false),
+        None => true,
+    }
+}
+
+/// Extra observations attached to a mismatch report (never part of the
+/// verdict): does FreeType report an error for this glyph under
+/// FT_LOAD_PEDANTIC (it silently falls back to the unhinted outline
+/// otherwise), and is each side's hinted outline just its unhinted one?
+fn diagnose(
+    font: &CorpusFont,
+    face: &FaceInfo,
+    gid: u32,
+    ppem: u32,
+    mode: Mode,
+    ft_path: &[PathElement],
+    sk_path: &[PathElement],
+) -> Value {
+    let r = vf_core::guard(|| {
+        let mut out = serde_json::Map::new();
+        if ppem == 0 {
+            return Value::Object(out);
+        }
+        // 1. FreeType, same flags as fauntlet + PEDANTIC
+        {
+            use freetype::face::LoadFlag;
+            let pedantic = (|| -> Result<(), String> {
+                let lib = freetype::Library::init().map_err(|e| format!("init: {e:?}"))?;
+                let f = lib
+                    .new_face(&font.path, face.index as isize)
+                    .map_err(|e| format!("new_face: {e:?}"))?;
+                f.set_pixel_sizes(ppem, ppem).map_err(|e| format!("set_pixel_sizes: {e:?}"))?;
+                let mut flags = LoadFlag::NO_BITMAP | LoadFlag::PEDANTIC;
+                match mode.hinting() {
+                    None => flags |= LoadFlag::NO_HINTING,
+                    Some(h) => flags |= h.freetype_load_flags(),
+                }
+                f.load_glyph(gid, flags).map_err(|e| format!("{e:?}"))
+            })();
+            out.insert(
+                "freetype_load_glyph_with_FT_LOAD_PEDANTIC".into(),
+                match pedantic {
+                    Ok(()) => json!("ok"),
+                    Err(e) => json!(format!("error: {e}")),
+                },
+            );
+        }
+        // 2. unhinted outlines from both sides at the same size
+        if mode.hinting().is_some() {
+            if let Some(mut f2) = Font::new(&font.path) {
+                let options = InstanceOptions::new(face.index, ppem, &[], None);
+                if let Some((mut ft, mut sk)) = f2.instantiate(&options) {
+                    let glyph_id = GlyphId::new(gid);
+                    let mut a: Vec<PathElement> = vec![];
+                    let mut b: Vec<PathElement> = vec![];
+                    let fa = ft.outline(glyph_id, &mut RegularizingPen::new(&mut a, true));
+                    let sb = sk.outline(glyph_id, &mut RegularizingPen::new(&mut b, true));
+                    if fa.is_some() {
+                        out.insert("freetype_hinted_path_equals_freetype_unhinted_path".into(), json!(a.as_slice() == ft_path));
+                    }
+                    if sb.is_ok() {
+                        out.insert("skrifa_hinted_path_equals_skrifa_unhinted_path".into(), json!(b.as_slice() == sk_path));
+                    }
+                    out.insert("unhinted_paths_agree".into(), json!(a == b));
+                }
+            }
+        }
+        Value::Object(out)
+    });
+    r.unwrap_or(Value::Null)
+}
+
+/// The frozen corpus: font-test-data + /verif/corpus/fonts, plus the source
+/// fonts of klippa's test data (pinned in the repository; they add real-world
+/// hinted TrueType programs and a hinted CFF font).
+fn all_fonts() -> Vec<CorpusFont> {
+    let mut v = vf_core::corpus_fonts();
+    let mut names: std::collections::HashSet<u64> = v.iter().map(|f| fnv64(&f.data)).collect();
+    for f in vf_core::klippa_fonts() {
+        if names.insert(fnv64(&f.data)) {
+            v.push(f);
+        }
+    }
+    v
+}
+
+fn open_font(ctx: &mut Ctx, path: &Path) -> Option<Font> {
+    match vf_core::guard(|| Font::new(path)) {
+        Ok(Some(f)) => Some(f),
+        Ok(None) => {
+            ctx.count("files_skipped:fauntlet_open_failed", 1);
+            None
+        }
+        Err(p) => {
+            ctx.inconclusive(format!("panic opening {}: {}", path.display(), p.msg));
+            None
+        }
+    }
+}
+
+fn freetype_version() -> Option<String> {
+    // freetype-rs does not expose FT_Library_Version on Library in a stable
+    // way across versions; report the crate-level fact instead.
+    Some("freetype-sys 0.17 bundled (FreeType 2.12.1), via fauntlet".into())
+}
+
+/// Re-run one recorded mismatch: all sizes of the tier for the recorded
+/// (font, face, glyph, engine).
+fn replay(ctx: &mut Ctx, _args: &Args, rec: &Value, _bytes: Option<&[u8]>) {
+    ctx.rule = "replay of one recorded (font, glyph, engine)".into();
+    let d = &rec["detail"];
+    let Some(name) = d["font"].as_str().and_then(|s| s.split('#').next()) else {
+        ctx.inconclusive("replay record without font");
+        return;
+    };
+    let name = name.split('@').next().unwrap_or(name).to_string();
+    let gid = d["gid"].as_u64().unwrap_or(0) as u32;
+    let index = d["index"].as_u64().unwrap_or(0) as usize;
+    let engine = d["engine"].as_str().unwrap_or("none").to_string();
+    let fonts = all_fonts();
+    let Some(font) = fonts.iter().find(|f| f.name == name) else {
+        ctx.inconclusive(format!("replay: font {} not in corpus", name));
+        return;
+    };
+    let faces = static_outline_faces(ctx, font);
+    let Some(face) = faces.iter().find(|f| f.index == index) else {
+        ctx.inconclusive("replay: face not in domain");
+        return;
+    };
+    let Some(mut ff) = open_font(ctx, &font.path) else { return };
+    let mut stats = Stats::default();
+    let mut all_sizes: Vec<u32> = vec![0];
+    all_sizes.extend(6..=200u32);
+    all_sizes.extend([256, 512, 1000]);
+    for ppem in all_sizes {
+        let modes: Vec<Mode> = if ppem == 0 { vec![Mode::Unscaled] } else { scaled_modes() };
+        for mode in modes {
+            if mode.engine() != engine {
+                continue;
+            }
+            let mut gids = std::iter::once(gid);
+            run_config(ctx, &mut stats, &mut ff, font, face, ppem, mode, &mut gids);
+        }
+    }
+    let _ = Mode::parse; // kept for external tooling of replay records
 }
